@@ -110,7 +110,7 @@ type c04ComplaintSpec struct {
 	badProof   bool // the complaint proof was made with a key that is not the complainant's one-time key
 }
 
-// VerifC04ComplainStep: one MsgComplain (one complaint; two in the thorough tier) through the real msg server
+// VerifC04ComplainStep: one MsgComplain (one complaint; one or two against different respondents in the thorough tier) through the real msg server
 // from an arbitrary bounded round-3 state.
 //
 //	accepted  <=>  group exists ∧ status = ROUND_3 ∧ complainant id in 1..n ∧ sender is its address
@@ -144,8 +144,13 @@ func VerifC04ComplainStep() {
 			// any id 1..n+1 other than the complainant (n+1 is not a member)
 			s.respondent = tss.MemberID(1 + vs.Pick("respondent", n+1))
 			vs.Assume(s.respondent != complainant)
+			for _, o := range specs { // one complaint per respondent
+				vs.Assume(s.respondent != o.respondent)
+			}
 			s.corrupt = vs.Bool("respondent_dealt_bad_share")
-			s.badProof = vs.Bool("proof_with_wrong_key")
+			if i == 0 { // (the proof variants are ranged over in the first complaint only)
+				s.badProof = vs.Bool("proof_with_wrong_key")
+			}
 		} else {
 			s.respondent = complainant%tss.MemberID(n) + 1
 			if !r.isMember {
